@@ -8,8 +8,12 @@ controlled overlap are built through the public API, snapshotted, merged by the 
 model is run on the snapshot taken *before* the call. The oracle restates the clauses of the
 property over the snapshots only (it never looks at the model).
 """
+import contextlib
 import copy
 import datetime as dt
+import math
+import random
+import re
 import sys
 
 import framework as fw
@@ -46,10 +50,14 @@ def to_tag(v):
     if isinstance(v, int):
         return {"i": v}
     if isinstance(v, float):
+        # half-integers are the floats of the modelled universe; every other float gets a tag that
+        # can be decoded again (histories stream, oracle only: `modelable_x` refuses it)
+        if not math.isfinite(v):
+            return {"r": repr(v)}
         h = v * 2
         if h == int(h) and abs(h) < 2 ** 50:
             return {"f": int(h)}
-        return {"w": repr(v)}
+        return {"r": repr(v)}
     if isinstance(v, str):
         return {"s": v}
     if isinstance(v, dt.datetime):
@@ -70,6 +78,8 @@ def from_tag(t):
         return t["f"] / 2.0
     if "b" in t:
         return t["b"]
+    if "r" in t:
+        return float(t["r"])
     if "dt" in t:
         return dt.datetime.strptime(t["dt"], "%Y-%m-%d %H:%M:%S")
     if "d" in t:
@@ -85,6 +95,15 @@ def unc_tag(u):
     if isinstance(u, (int, float)) and not isinstance(u, bool) and u * 2 == int(u * 2):
         return int(u * 2)
     return {"w": repr(u)}
+
+
+def unc_val(t):
+    """inverse of unc_tag (a number that is not a half-integer is carried as its repr)"""
+    if t is None:
+        return None
+    if isinstance(t, dict):
+        return float(t["w"])
+    return t / 2.0
 
 
 def text_out(x):
@@ -123,15 +142,17 @@ def build_prop(spec, parent=None):
     vals = [from_tag(t) for t in spec["values"]]
     return odml.Property(name=spec["name"], values=vals if vals else None, dtype=spec["dtype"],
                          unit=spec["unit"],
-                         uncertainty=None if spec["unc"] is None else spec["unc"] / 2.0,
+                         uncertainty=unc_val(spec["unc"]),
                          definition=spec["def"], reference=spec["ref"],
                          value_origin=spec["origin"], parent=parent)
 
 
 def build_sec(spec, parent=None):
     import odml
+    # link / include are handed to the constructor, which stores them unresolved
     sec = odml.Section(name=spec["name"], type=spec["type"], definition=spec["def"],
-                       reference=spec["ref"], parent=parent)
+                       reference=spec["ref"], parent=parent, link=spec.get("link"),
+                       include=spec.get("incl"))
     for p in spec["props"]:
         build_prop(p, sec)
     for c in spec["secs"]:
@@ -237,7 +258,7 @@ def derive_prop(rng, mine, mode, strict):
         mode_attr = "free" if rng.random() < 0.5 else "safe"
     return {"name": mine["name"], "dtype": dtype, "values": values,
             "unit": derive_exact(rng, mine["unit"], UNITS, mode_attr),
-            "unc": unc_tag(derive_exact(rng, None if mine["unc"] is None else mine["unc"] / 2.0,
+            "unc": unc_tag(derive_exact(rng, unc_val(mine["unc"]),
                                         UNCS, mode_attr)),
             "def": derive_text(rng, mine["def"], mode_attr),
             "ref": derive_text(rng, mine["ref"], mode_attr),
@@ -394,6 +415,23 @@ def py_in(v, values):
     return any(v == w for w in values)
 
 
+def empty_own_ok(own, source, result):
+    """The destination's own attribute is "" (no setter stores that; the XML reader does, for a
+    whitespace-only element).  The statement does not say whether "" is set or unset, so every
+    reading is accepted: kept as it is, counted as unset (None), or filled from the source."""
+    return own == "" and result in ("", None, source)
+
+
+def without_empty(x):
+    """a snapshot with every "" text attribute / unit read as unset (see empty_own_ok)"""
+    if isinstance(x, dict):
+        return dict((k, None if (v == "" and k in ("def", "ref", "origin", "unit")) else
+                     without_empty(v)) for k, v in x.items())
+    if isinstance(x, list):
+        return [without_empty(v) for v in x]
+    return x
+
+
 def check_prop_merged(dp, sp, rp, strict, where, out):
     """Clauses of the property for one merged Property (dp + sp -> rp)."""
     from odml import dtypes
@@ -419,7 +457,7 @@ def check_prop_merged(dp, sp, rp, strict, where, out):
         want = dp[attr] if dp[attr] is not None else sp[attr]
         if want == "":
             want = None
-        if rp[attr] != want:
+        if rp[attr] != want and not empty_own_ok(dp[attr], sp[attr], rp[attr]):
             out.append("%s: %s is %r, expected %r (own %r, source %r)"
                        % (where, attr, rp[attr], want, dp[attr], sp[attr]))
 
@@ -430,7 +468,7 @@ def check_merged(d, s, r, strict, where, out):
         want = d[attr] if d[attr] is not None else s[attr]
         if want == "":
             want = None
-        if r[attr] != want:
+        if r[attr] != want and not empty_own_ok(d[attr], s[attr], r[attr]):
             out.append("%s: section %s is %r, expected %r" % (where, attr, r[attr], want))
     if r["name"] != d["name"] or r["type"] != d["type"]:
         out.append("%s: name/type of the destination changed" % where)
@@ -484,6 +522,722 @@ def check_complete(r, s, where, out):
             check_complete(rc, sc, "%s/%s" % (where, sc["name"]), out)
 
 
+# ----------------------------------------------------------------------------- histories
+# Strengthening after seeded round 2 (design.d/C13.md).  The property quantifies over *pairs of
+# Section trees*; it does not say how the two trees came to be.  The streams above only ever hand
+# freshly constructed objects to a single call.  The stream "hist" builds the trees, applies a
+# history of public-API operations to them (earlier merges and merge_checks - accepted and refused
+# ones -, lookups, renames, item assignment, remove / append / insert / reorder, direct edits of the
+# child lists that `properties` / `sections` hand out, attribute and value edits, cardinalities,
+# clones with and without ids, moving children between trees, unmerge / clean, attaching to a
+# Document, a trip through the dict writer and reader) and judges EVERY merge / merge_check /
+# Property.merge of the history: the model is run on the snapshot taken immediately before the call
+# (it is a function of the two trees only, so it is the referee of "the history does not matter"),
+# and the oracle restates the clauses over the snapshots.  The trees of this stream also use wider
+# pools: unnamed objects (name = id), names / types differing in case or blanks only, multi-digit
+# names, non-ASCII names, units and texts, exotic blanks, whitespace-only texts, unresolved
+# link / include attributes, 10+ siblings, deep chains, huge ints, non-half-integer and infinite
+# floats.  Steps whose snapshots leave the modelled universe are judged by the oracle alone.
+#
+# "" as a text attribute or unit is never generated (only the constructor can store it, every
+# setter turns it into None) but it is reachable: the XML round trip of a history turns a
+# whitespace-only attribute into "".  Whether "" is "set" is ambiguous, the oracle accepts every
+# reading there (empty_own_ok, without_empty).
+# Deliberately outside: NaN values ("a value it lacked" is
+# not defined for a value unequal to itself), a source that is the destination itself or its
+# ancestor / descendant ("the whole of src is unchanged" cannot hold), strict arguments that are
+# not bools, duplicate sibling names (only reachable by renaming an object whose parent pointer
+# was cut by a direct list edit).
+
+X_POOL = dict(POOL)
+X_POOL["string"] = POOL["string"] + [u"\xe9", u"\xc4B", u"日本", u"١٢", "a" * 40, "10", "9"]
+X_POOL["text"] = POOL["text"] + [u"\xfc\n\xf6"]
+X_POOL["int"] = POOL["int"] + [2 ** 70, -7, 10, 9, 100]
+X_POOL["float"] = POOL["float"] + [0.1, 1e300, float("inf"), -0.0, 2.5, 10.0, 9.0]
+X_UNITS = UNITS + [u"\xb5V", " ", "m V", "MV", "10", "9"]
+X_UNCS = UNCS + [0.1, 10, 1e-9, -1.0, 9]
+X_TEXTS = TEXTS + [" ", u"\xdcnit", u"\xdcNIT", u"\xfc nit", u"Def\xa0one", u"def ONE ",
+                   u"δx", u"δ X", "\t\n"]
+X_NAMES = NAMES + ["p1", "p2", "p10", u"\xe4", " a", "a b", None]
+X_TYPES = TYPES + ["T", "t ", u"\xfc/x"]
+X_LINKS = ["/nowhere", "../sibling", "a/b"]
+X_INCLS = ["no-such-file.xml#/x"]
+
+
+@contextlib.contextmanager
+def ext_pools():
+    """The tree generators above with the wider pools (the classic streams keep theirs)."""
+    glob = globals()
+    names = ["POOL", "UNITS", "UNCS", "TEXTS", "NAMES", "TYPES"]
+    old = dict((n, glob[n]) for n in names)
+    try:
+        for n in names:
+            glob[n] = glob["X_" + n]
+        yield
+    finally:
+        glob.update(old)
+
+
+def lower_is_ascii_only(text):
+    return text.lower() == "".join(c.lower() if c.isascii() else c for c in text)
+
+
+def modelable_x(x):
+    """modelable, and nothing the model treats differently from CPython: str.lower is modelled for
+    ASCII letters (blanks are the full str.isspace set), value strings are parsed as ASCII."""
+    if isinstance(x, dict):
+        if len(x) == 1 and "r" in x:
+            return False
+        if len(x) == 1 and "s" in x:
+            return x["s"].isascii()
+        if "dtype" in x and x["dtype"] is not None and x["dtype"] not in DTYPES:
+            return False
+        if "w" in x:
+            return False
+        for k in ("def", "ref", "origin"):
+            if isinstance(x.get(k), str) and not lower_is_ascii_only(x[k]):
+                return False
+        return all(modelable_x(v) for v in x.values())
+    if isinstance(x, list):
+        return all(modelable_x(v) for v in x)
+    return True
+
+
+def scrub(spec):
+    """"" never is an attribute of a generated tree (a variant of a whitespace-only text can be "";
+    see the note on "" above): it becomes a blank."""
+    for node in [spec] + spec["props"]:
+        for k in ("def", "ref", "origin", "unit"):
+            if node.get(k) == "":
+                node[k] = " "
+    for c in spec["secs"]:
+        scrub(c)
+    return spec
+
+
+def sprinkle(rng, spec, depth=0):
+    """unresolved link / include attributes somewhere below the root of a tree spec"""
+    for c in spec["secs"]:
+        r = rng.random()
+        if r < 0.08:
+            c["link"] = rng.choice(X_LINKS)
+        elif r < 0.12:
+            c["incl"] = rng.choice(X_INCLS)
+        sprinkle(rng, c, depth + 1)
+    return spec
+
+
+def new_wide(rng, name):
+    """10+ siblings with multi-digit names"""
+    with_vals = lambda n: new_prop(rng, n, dtype=rng.choice(["int", "string", "float"]))
+    return {"name": name, "type": "t", "def": None, "ref": None, "link": None, "incl": None,
+            "merged": False,
+            "props": [with_vals("p%d" % i) for i in range(1, rng.choice([10, 11, 13]))],
+            "secs": [new_sec(rng, "s%d" % i, 0) for i in range(1, rng.choice([2, 3, 11]))]}
+
+
+def new_deep(rng, name, depth):
+    """a chain of Sections, every level with a few Properties"""
+    node = new_sec(rng, name, 0)
+    if depth > 0:
+        node["secs"] = [new_deep(rng, rng.choice(["a", "b"]), depth - 1)]
+        if rng.random() < 0.4:
+            node["secs"].append(new_sec(rng, "c", 1))
+    return node
+
+
+# ---- a light simulation of the operations on specs (only guides the generator: which names and
+# ---- positions exist; the interpreter below takes every index modulo the live length)
+def sim_at(sim, ref):
+    sec = sim[ref[0] % len(sim)]
+    for i in ref[1]:
+        if not sec["secs"]:
+            break
+        sec = sec["secs"][i % len(sec["secs"])]
+    return sec
+
+
+def sim_merge(d, s):
+    for sc in s["secs"]:
+        dc = find_sec(d["secs"], sc["name"], sc["type"])
+        if dc is not None:
+            sim_merge(dc, sc)
+        elif not any(c["name"] == sc["name"] for c in d["secs"]):
+            d["secs"].append(copy.deepcopy(sc))
+    for sp in s["props"]:
+        if find_prop(d["props"], sp["name"]) is None:
+            d["props"].append(copy.deepcopy(sp))
+
+
+def sim_apply(sim, op):
+    kind = op["op"]
+    if kind == "new":
+        sim.append(copy.deepcopy(op["spec"]))
+        return
+    if kind == "clone_as":
+        sim.append(copy.deepcopy(sim_at(sim, op["at"])))
+        return
+    if kind == "merge":
+        sim_merge(sim_at(sim, op["at"]), sim_at(sim, op["src"]))
+        return
+    if "at" not in op:
+        return
+    sec = sim_at(sim, op["at"])
+    which = "props" if kind.endswith("_p") else "secs"
+    lst = sec[which]
+    i = op.get("i", 0)
+    if kind in ("rename_p", "rename_s") and lst:
+        if not any(c["name"] == op["name"] for c in lst):
+            lst[i % len(lst)]["name"] = op["name"]
+    elif kind == "retype_s" and lst:
+        lst[i % len(lst)]["type"] = op["type"]
+    elif kind in ("set_p", "set_s", "rmapp_p", "rmapp_s", "listdelapp_p") and lst:
+        j = i % len(lst)
+        if not any(c["name"] == op["spec"]["name"] for k, c in enumerate(lst) if k != j):
+            if kind.startswith("set"):
+                lst[j] = copy.deepcopy(op["spec"])
+            else:
+                del lst[j]
+                lst.append(copy.deepcopy(op["spec"]))
+    elif kind in ("remove_p", "remove_s") and lst:
+        del lst[i % len(lst)]
+    elif kind in ("append_p", "append_s", "insert_p", "insert_s"):
+        if not any(c["name"] == op["spec"]["name"] for c in lst):
+            lst.append(copy.deepcopy(op["spec"]))
+
+
+def rand_path(rng, spec, maxlen=3):
+    path = []
+    node = spec
+    while node["secs"] and len(path) < maxlen and rng.random() < 0.6:
+        i = rng.randrange(len(node["secs"]))
+        path.append(i)
+        node = node["secs"][i]
+    return path
+
+
+L_KINDS = ["merge", "mergefail", "check", "pmerge", "contains_p", "contains_s", "lookup", "equiv",
+           "walk", "link", "none"]
+E_KINDS = ["rename_p", "rename_s", "retype_s", "set_p", "set_s", "setmoved_p", "rmapp_p", "rmapp_s",
+           "remove_p", "remove_s", "append_p", "append_s", "insert_p", "insert_s", "reorder_p",
+           "reorder_s", "listsort_p", "listrev_p", "listrev_s", "listdelapp_p", "attr_p", "attr_s",
+           "values_p", "dtype_p", "card_p", "card_s", "clone_root", "clone_sub", "move_p", "move_s",
+           "unmerge", "clean", "doc", "reload", "none"]
+ATTRS_P = ["unit", "unc", "def", "ref", "origin"]
+
+
+def gen_edit(rng, kind, at, sim, others):
+    """one history operation of the given kind on the Section at `at` (a [tree, path] reference)"""
+    sec = sim_at(sim, at)
+    op = {"op": kind, "at": at, "i": rng.randrange(12)}
+    if kind in ("rename_p", "rename_s"):
+        pool = [n for n in NAMES if n is not None] + ["zz", ""]
+        op["name"] = rng.choice(pool)
+    elif kind == "retype_s":
+        op["type"] = rng.choice(TYPES)
+    elif kind in ("set_p", "rmapp_p", "append_p", "insert_p", "listdelapp_p"):
+        lst = sec["props"]
+        if lst and rng.random() < 0.5:      # the name of the replaced / a present child, or a new one
+            name = lst[op["i"] % len(lst)]["name"]
+        else:
+            name = rng.choice(NAMES)
+        op["spec"] = new_prop(rng, name)
+        op["pos"] = rng.choice([0, 1, -1, 5])
+    elif kind in ("set_s", "rmapp_s", "append_s", "insert_s"):
+        lst = sec["secs"]
+        if lst and rng.random() < 0.5:
+            name = lst[op["i"] % len(lst)]["name"]
+        else:
+            name = rng.choice(NAMES)
+        op["spec"] = new_sec(rng, name, rng.choice([0, 1]))
+        if lst and rng.random() < 0.5:
+            op["spec"]["type"] = lst[op["i"] % len(lst)]["type"]
+        op["pos"] = rng.choice([0, 1, -1, 5])
+    elif kind in ("setmoved_p", "move_p", "move_s"):
+        op["src"] = [rng.choice(others), []] if others else at
+        op["j"] = rng.randrange(12)
+    elif kind in ("reorder_p", "reorder_s"):
+        op["to"] = rng.choice([0, 1, 2, -1, 7])
+    elif kind == "attr_p":
+        op["attr"] = rng.choice(ATTRS_P)
+        pool = {"unit": UNITS, "unc": UNCS}.get(op["attr"], TEXTS)
+        op["value"] = rng.choice(pool)
+        if op["attr"] == "unc":
+            op["value"] = unc_tag(op["value"])
+    elif kind == "attr_s":
+        op["attr"] = rng.choice(["def", "ref"])
+        op["value"] = rng.choice(TEXTS)
+    elif kind == "values_p":
+        t = rng.choice(DTYPES)
+        op["values"] = [to_tag(rng.choice(POOL[t])) for _ in range(rng.choice([0, 1, 2, 3]))]
+    elif kind == "dtype_p":
+        op["dtype"] = rng.choice(DTYPES + [None, "Int", "STRING"])
+    elif kind in ("card_p", "card_s"):
+        op["card"] = rng.choice([None, 1, [0, 1], [None, 2], [2, None], [1, 1]])
+        op["which"] = rng.choice(["sec", "prop"])
+    elif kind in ("clone_root", "clone_sub"):
+        op["keep_id"] = rng.random() < 0.5
+    elif kind == "unmerge":
+        op["src"] = [rng.choice(others), []] if others else at
+    elif kind == "reload":
+        op["fmt"] = rng.choice(["dict", "dict", "XML", "JSON", "YAML"])
+    return op
+
+
+def gen_look(rng, kind, at, src, strict):
+    """one operation that makes the Section at `at` look at its children (src: a tree index)"""
+    op = {"op": kind, "at": at, "i": rng.randrange(12)}
+    if kind in ("merge", "check"):
+        op.update({"src": [src, []], "strict": strict, "call": rng.choice(["kw", "pos", "kw"])})
+        if strict and rng.random() < 0.2:
+            op["call"] = "default"
+    elif kind == "pmerge":
+        op.update({"src": [src, []], "j": rng.randrange(12), "strict": strict})
+    elif kind in ("contains_p", "contains_s"):
+        op["name"] = rng.choice([n for n in NAMES if n is not None])
+        op["type"] = rng.choice(TYPES)
+    elif kind == "link":
+        op["src"] = [at[0], [rng.randrange(4) for _ in range(rng.choice([1, 1, 2]))]]
+    return op
+
+
+def conflict_source(rng, base):
+    """a source that a strict merge must refuse (when `base` has a Property at all)"""
+    s = derive_sec(rng, base, "safe", True, 3, name="src")
+    if base["props"]:
+        p = copy.deepcopy(rng.choice(base["props"]))
+        p["unit"], p["values"] = "xx-other-unit", []
+        s["props"] = [q for q in s["props"] if q["name"] != p["name"]] + [p]
+    return scrub(s)
+
+
+def gen_history(rng, lk=None, ek=None):
+    """
+    -> case of stream "hist".  Directed shape (lk, ek given): a first source, an operation that makes
+    the destination look at its children (lk), an edit (ek) at some depth below the merged Section,
+    a second source derived from the destination before or after the edit, the judged merge.
+    Without lk / ek: a random history over all trees, ending in a merge.
+    """
+    # half of the histories stay inside the modelled universe (classic pools: every judged step is
+    # refereed by the model as well), half use the wider pools
+    with (ext_pools() if rng.random() < 0.5 else contextlib.nullcontext()):
+        shape = rng.random()
+        if shape < 0.08:
+            d = new_wide(rng, "dest")
+        elif shape < 0.2:
+            d = new_deep(rng, "dest", rng.choice([4, 5, 6]))
+        else:
+            d = new_sec(rng, "dest", rng.choice([1, 1, 2, 2, 2, 3]), attrs=rng.random() < 0.7)
+        sprinkle(rng, d)
+        sim = [copy.deepcopy(d)]
+        ops = []
+
+        def push(op):
+            ops.append(op)
+            sim_apply(sim, op)
+
+        def new_source(base, strict):
+            mode = "safe" if rng.random() < 0.7 else "free"
+            s = derive_sec(rng, base, mode, strict, 3, name=rng.choice(["src", "src", None]))
+            if rng.random() < 0.3:
+                sprinkle(rng, s)
+            push({"op": "new", "spec": scrub(s)})
+            return len(sim) - 1
+
+        def edit_path(q, kind):
+            """a path below q to a Section that has something for an edit of this kind"""
+            best = q
+            for _ in range(6):
+                cand = q + rand_path(rng, sim_at(sim, [0, q]), 2)
+                node = sim_at(sim, [0, cand])
+                need = "props" if kind.endswith("_p") else ("secs" if kind.endswith("_s") else None)
+                if need is None or node[need]:
+                    return cand
+                best = cand
+            return best
+
+        if lk is not None:
+            strict = rng.random() < 0.5
+            q = rand_path(rng, sim[0], 2) if rng.random() < 0.4 else []      # the merged Section
+            p = edit_path(q, ek)                                             # where the edit happens
+            if lk == "link":
+                push({"op": "doc", "at": [0, []]})
+                if not p and sim[0]["secs"]:
+                    p = [rng.randrange(len(sim[0]["secs"]))]
+                q = p
+            if lk == "mergefail":
+                push({"op": "new", "spec": conflict_source(rng, sim_at(sim, [0, p]))})
+                push(gen_look(rng, "merge", [0, p], len(sim) - 1, True))
+            elif lk != "none":
+                # the look happens at the merged Section or right where the edit will happen
+                at = [0, q] if lk in ("merge", "check") and rng.random() < 0.5 else [0, p]
+                k1 = new_source(sim_at(sim, at), strict)
+                look = gen_look(rng, lk, at, k1, strict)
+                if lk == "link" and p and len(sim[0]["secs"]) > 1:      # a sibling of the top-level ancestor
+                    look["src"] = [0, [(p[0] + 1 + rng.randrange(len(sim[0]["secs"]) - 1))
+                                       % len(sim[0]["secs"])]]
+                push(look)
+            # rounds of (edit, merges); the first edit is `ek`, later rounds draw their own look and
+            # edit, always on the same destination objects
+            for rnd in range(rng.choice([1, 2, 2, 3])):
+                kind = ek if rnd == 0 else rng.choice(E_KINDS[:-1])
+                if rnd > 0:
+                    p = edit_path(q, kind)
+                    if rng.random() < 0.6:
+                        lk2 = rng.choice(["merge", "check", "contains_p", "contains_s", "lookup",
+                                          "equiv", "walk"])
+                        push(gen_look(rng, lk2, [0, p], len(sim) - 1, rng.random() < 0.5))
+                before = copy.deepcopy(sim_at(sim, [0, q]))
+                if kind != "none":
+                    others = list(range(1, len(sim)))
+                    push(gen_edit(rng, kind, [0, p], sim, others))
+                # one source that still talks about the destination as it was before the edit, one
+                # that talks about it as it is now; both are merged, in either order
+                bases = [before, None] if kind != "none" else [None]
+                if rng.random() < 0.5:
+                    bases.reverse()
+                for base in bases:
+                    strict2 = rng.random() < 0.5
+                    k2 = new_source(base if base is not None else sim_at(sim, [0, q]), strict2)
+                    if rng.random() < 0.25:
+                        push(gen_look(rng, "check", [0, q], k2, strict2))
+                    push(gen_look(rng, "merge", [0, q], k2, strict2))
+                    if rng.random() < 0.3:       # and once more: the same source again
+                        push(gen_look(rng, "merge", [0, q], k2, rng.random() < 0.5))
+        else:
+            # a random history around one focus: a Section of the first tree that most operations
+            # look at / edit and most sources are derived from; the other trees get their share
+            q = rand_path(rng, sim[0], 2) if rng.random() < 0.4 else []
+            last = None
+            for _ in range(rng.choice([3, 4, 6, 8, 10])):
+                r = rng.random()
+                if rng.random() < 0.75 or len(sim) < 2:
+                    t, at = 0, [0, edit_path(q, rng.choice(["x_p", "x_s", "x"]))]
+                else:
+                    t = rng.randrange(len(sim))
+                    at = [t, rand_path(rng, sim[t], 3)]
+                others = [k for k in range(len(sim)) if k != t]
+                if r < 0.25 or not others:
+                    if rng.random() < 0.85 or len(sim) < 2:
+                        last = new_source(sim_at(sim, at if rng.random() < 0.5 else [0, q]),
+                                          rng.random() < 0.5)
+                    else:
+                        push({"op": "clone_as", "at": at, "keep_id": rng.random() < 0.5})
+                        last = len(sim) - 1
+                elif r < 0.55:
+                    kind = rng.choice([k for k in L_KINDS if k not in ("none", "mergefail")])
+                    src_k = last if last is not None and last != t and rng.random() < 0.7 \
+                        else rng.choice(others)
+                    look = gen_look(rng, kind, at, src_k, rng.random() < 0.5)
+                    if kind in ("merge", "check", "pmerge") and rng.random() < 0.3:
+                        # a sub-Section as the source, also one of the destination's own tree
+                        # (the interpreter drops pairs where one contains the other)
+                        k = t if rng.random() < 0.5 else src_k
+                        look["src"] = [k, rand_path(rng, sim[k], 3)]
+                    push(look)
+                else:
+                    push(gen_edit(rng, rng.choice(E_KINDS[:-1]), at, sim, others))
+            last = new_source(sim_at(sim, [0, q]), rng.random() < 0.5)
+            push(gen_look(rng, "merge", [0, q], last, rng.random() < 0.5))
+            if rng.random() < 0.3:       # some other pair as well
+                t = rng.randrange(len(sim))
+                others = [k for k in range(len(sim)) if k != t]
+                push(gen_look(rng, "merge", [t, rand_path(rng, sim[t], 2)], rng.choice(others),
+                              rng.random() < 0.5))
+    case = {"stream": "hist", "d": d, "ops": ops}
+    if lk is not None:
+        case["shape"] = "%s>%s" % (lk, ek)
+    return case
+
+
+# ---- the interpreter: the history on live objects
+def sec_at(trees, ref):
+    sec = trees[ref[0] % len(trees)]
+    for i in ref[1]:
+        subs = sec.sections
+        if len(subs) == 0:
+            break
+        sec = subs[i % len(subs)]
+    return sec
+
+
+def lineage(obj):
+    out, cur = [], obj
+    while cur is not None and len(out) < 500:
+        out.append(cur)
+        cur = getattr(cur, "parent", None)
+    return out
+
+
+def related(a, b):
+    """the same object, or one contains the other"""
+    return any(x is b for x in lineage(a)) or any(x is a for x in lineage(b))
+
+
+def name_free(lst, name, but=None):
+    if not name:
+        return True        # an unnamed object is called by its fresh id
+    return not any(c is not but and c.name == name for c in lst)
+
+
+def has_include(sec):
+    return sec.include is not None or any(has_include(c) for c in sec.sections)
+
+
+def slim(step):
+    """histories make many observations: an "after" snapshot equal to its "before" snapshot is
+    stored as the same object (pickled and kept in memory once; the readers only compare)"""
+    if step["after_s"] == step["before_s"]:
+        step["after_s"] = step["before_s"]
+    if step["after_d"] == step["before_d"]:
+        step["after_d"] = step["before_d"]
+    return step
+
+
+def judged_call(kind, dst, src, strict, call, snap):
+    before_d, before_s = snap(dst), snap(src)
+    meth = dst.merge_check if kind == "check" else dst.merge
+    try:
+        if call == "default":
+            meth(src)
+        elif call == "pos":
+            meth(src, strict)
+        else:
+            meth(src, strict=strict)
+        outc = "ok"
+    except Exception as exc:
+        outc = fw.exc_name(exc)
+    return slim({"kind": kind, "strict": strict, "outcome": outc, "before_d": before_d,
+                 "before_s": before_s, "after_d": snap(dst), "after_s": snap(src)})
+
+
+def apply_judged(trees, op):
+    """merge / check / pmerge / link: -> step observation, or None when the two objects are not
+    an admissible pair (the same object, ancestor and descendant, no such Property)."""
+    kind = op["op"]
+    dst = sec_at(trees, op["at"])
+    src = sec_at(trees, op["src"])
+    if related(dst, src):
+        return None
+    if kind in ("merge", "check"):
+        return judged_call(kind, dst, src, op["strict"], op.get("call", "kw"), snap_sec)
+    if kind == "pmerge":
+        if not len(dst.properties) or not len(src.properties):
+            return None
+        dprop = dst.properties[op["i"] % len(dst.properties)]
+        sprop = src.properties[op["j"] % len(src.properties)]
+        return judged_call("pmerge", dprop, sprop, op["strict"], "kw", snap_prop)
+    # link: the other entry point of a (non-strict) merge.  Judged only where the setter is
+    # "store the path, merge the target": no link / include yet, a parent, a resolvable path.
+    if dst.link is not None or dst.include is not None or dst.parent is None:
+        return None
+    try:
+        path = dst.get_relative_path(src)
+        if dst.get_section_by_path(path) is not src:
+            return None
+    except Exception:
+        return None
+    before_d, before_s = snap_sec(dst), snap_sec(src)
+    try:
+        dst.link = path
+        outc = "ok"
+    except Exception as exc:
+        outc = fw.exc_name(exc)
+    after_d = snap_sec(dst)
+    after_d["link"] = before_d["link"]          # the setter's own doing, not the merge's
+    return slim({"kind": "link", "strict": False, "outcome": outc, "before_d": before_d,
+                 "before_s": before_s, "after_d": after_d, "after_s": snap_sec(src)})
+
+
+def apply_plain(odml, trees, op):
+    """every other operation of a history; may be refused by the library (the caller ignores it)"""
+    kind = op["op"]
+    if kind == "new":
+        trees.append(build_sec(op["spec"]))
+        return
+    sec = sec_at(trees, op["at"])
+    i = op.get("i", 0)
+    props, secs = sec.properties, sec.sections
+    lst = props if kind.endswith("_p") else secs
+    pick = (lambda: lst[i % len(lst)]) if len(lst) else None
+    if kind == "clone_as":
+        trees.append(sec.clone(keep_id=op["keep_id"]))
+    elif kind in ("contains_p", "contains_s"):
+        probe = odml.Property(name=op["name"]) if kind == "contains_p" else \
+            odml.Section(name=op["name"], type=op["type"])
+        sec.contains(probe)
+        for c in list(sec.sections):
+            c.contains(probe)
+    elif kind == "lookup":
+        def quietly(fn, *args, **kw):
+            try:
+                return fn(*args, **kw)
+            except Exception:
+                return None
+        for name in [p.name for p in props] + [c.name for c in secs] + ["zz"]:
+            (name in props, name in secs)
+            quietly(props.__getitem__, name)
+            quietly(secs.__getitem__, name)
+            quietly(sec.get_property_by_path, name)
+            quietly(sec.get_section_by_path, name)
+            quietly(sec.find, key=name)
+            quietly(sec.find_related, key=name)
+    elif kind == "equiv":
+        for c in sec.itersections(yield_self=True):
+            c.get_merged_equivalent()
+            for p in c.properties:
+                p.get_merged_equivalent()
+    elif kind == "walk":
+        list(sec.iterproperties())
+        list(sec.itervalues())
+        len(sec)
+        [(sec == t, t == sec) for t in trees]
+        [c.get_path() for c in sec.itersections()]
+    elif kind in ("rename_p", "rename_s"):
+        if pick and name_free(lst, op["name"], pick()):
+            pick().name = op["name"]
+    elif kind == "retype_s":
+        if pick:
+            pick().type = op["type"]
+    elif kind in ("set_p", "set_s"):
+        if pick and name_free(lst, op["spec"]["name"], pick()):
+            lst[i % len(lst)] = build_prop(op["spec"]) if kind == "set_p" else build_sec(op["spec"])
+    elif kind == "setmoved_p":
+        other = sec_at(trees, op["src"]).properties
+        if pick and len(other):
+            moved = other[op["j"] % len(other)]
+            if name_free(lst, moved.name, pick()):
+                lst[i % len(lst)] = moved
+    elif kind in ("rmapp_p", "rmapp_s"):
+        if pick and name_free(lst, op["spec"]["name"], pick()):
+            sec.remove(pick())
+            sec.append(build_prop(op["spec"]) if kind == "rmapp_p" else build_sec(op["spec"]))
+    elif kind in ("remove_p", "remove_s"):
+        if pick:
+            sec.remove(pick())
+    elif kind in ("append_p", "append_s", "insert_p", "insert_s"):
+        if name_free(lst, op["spec"]["name"]):
+            obj = build_prop(op["spec"]) if kind.endswith("_p") else build_sec(op["spec"])
+            if kind.startswith("append"):
+                sec.append(obj)
+            else:
+                sec.insert(op["pos"], obj)
+    elif kind in ("reorder_p", "reorder_s"):
+        if pick:
+            pick().reorder(op["to"])
+    elif kind == "listsort_p":
+        props.sort()
+    elif kind in ("listrev_p", "listrev_s"):
+        lst.reverse()
+    elif kind == "listdelapp_p":
+        # the child list the accessor hands out, edited directly (fresh objects only: nothing is
+        # ever in two lists)
+        if pick and name_free(lst, op["spec"]["name"], pick()):
+            del props[i % len(props)]
+            props.append(build_prop(op["spec"]))
+    elif kind == "attr_p":
+        if pick:
+            value = unc_val(op["value"]) if op["attr"] == "unc" else op["value"]
+            attr = {"unit": "unit", "unc": "uncertainty", "def": "definition", "ref": "reference",
+                    "origin": "value_origin"}[op["attr"]]
+            setattr(pick(), attr, value)
+    elif kind == "attr_s":
+        setattr(sec, {"def": "definition", "ref": "reference"}[op["attr"]], op["value"])
+    elif kind == "values_p":
+        if pick:
+            pick().values = [from_tag(t) for t in op["values"]]
+    elif kind == "dtype_p":
+        if pick:
+            pick().dtype = op["dtype"]
+    elif kind == "card_p":
+        if pick:
+            card = op["card"]
+            pick().val_cardinality = tuple(card) if isinstance(card, list) else card
+    elif kind == "card_s":
+        card = op["card"]
+        card = tuple(card) if isinstance(card, list) else card
+        if op["which"] == "sec":
+            sec.sec_cardinality = card
+        else:
+            sec.prop_cardinality = card
+    elif kind == "clone_root":
+        k = op["at"][0] % len(trees)
+        trees[k] = trees[k].clone(keep_id=op["keep_id"])
+    elif kind == "clone_sub":
+        if len(secs):
+            secs[i % len(secs)] = secs[i % len(secs)].clone(keep_id=op["keep_id"])
+    elif kind in ("move_p", "move_s"):
+        other = sec_at(trees, op["src"])
+        olst = other.properties if kind == "move_p" else other.sections
+        if len(olst) and other is not sec:
+            moved = olst[op["j"] % len(olst)]
+            if name_free(lst, moved.name) and (kind == "move_p" or not related(moved, sec)):
+                sec.append(moved)
+    elif kind == "unmerge":
+        other = sec_at(trees, op["src"])
+        if not related(sec, other):
+            sec.unmerge(other)
+    elif kind == "clean":
+        sec.clean()
+    elif kind == "doc":
+        k = op["at"][0] % len(trees)
+        if trees[k].parent is None:
+            doc = odml.Document()
+            doc.append(trees[k])
+            if len(trees) > 1 and trees[(k + 1) % len(trees)].parent is None and \
+                    name_free(doc.sections, trees[(k + 1) % len(trees)].name):
+                doc.append(trees[(k + 1) % len(trees)])
+    elif kind == "reload":
+        k = op["at"][0] % len(trees)
+        if trees[k].parent is None and not has_include(trees[k]):
+            doc = odml.Document()
+            doc.append(trees[k].clone(keep_id=True))
+            fmt = op.get("fmt", "dict")
+            if fmt == "dict":
+                from odml.tools.dict_parser import DictWriter, DictReader
+                data = DictWriter().to_dict(doc)
+                back = DictReader().to_odml({"Document": data, "odml-version": "1.1"})
+            else:       # the string entry points of the three file formats
+                from odml.tools.odmlparser import ODMLWriter, ODMLReader
+                text = ODMLWriter(parser=fmt).to_string(doc)
+                back = ODMLReader(parser=fmt, show_warnings=False).from_string(text)
+            if len(back.sections) == 1:
+                # the XML reader leaves the uncertainty as the text it read; the universe of this
+                # check is "None or a number" (assumptions): hand it to the setter, which converts
+                for prop in back.sections[0].iterproperties():
+                    if isinstance(prop.uncertainty, str):
+                        try:
+                            prop.uncertainty = prop.uncertainty
+                        except ValueError:
+                            prop.uncertainty = None
+                trees[k] = back.sections[0]
+    elif kind == "none":
+        pass
+    else:
+        raise ValueError(kind)
+
+
+JUDGED = ("merge", "check", "pmerge", "link")
+
+
+def run_history(case):
+    import odml
+    trees = [build_sec(case["d"])]
+    steps = []
+    for k, op in enumerate(case["ops"]):
+        if op["op"] in JUDGED:
+            st = apply_judged(trees, op)
+            if st is not None:
+                st["k"] = k
+                steps.append(st)
+            continue
+        try:
+            apply_plain(odml, trees, op)
+        except Exception:
+            pass        # refused by the library: part of the history all the same
+    return {"steps": steps}
+
+
 KEY_CLASH = "C13/section-name-clash-other-type"
 
 
@@ -523,13 +1277,29 @@ class C13(fw.Check):
         "uncertainty is None or a number; dtype names are the canonical DType names",
         "text attributes are ASCII apart from whitespace (str.lower is modelled for ASCII)",
         "clone() is the identity on the observed attributes (checked by the snapshots of copies)",
+        "judged steps of a history whose snapshots leave this universe (non-ASCII value strings or "
+        "cased non-ASCII letters in texts, other floats, other uncertainties) are decided by the "
+        "oracle alone",
+        "'' as a text attribute / unit (reachable through the XML reader only; ambiguous whether "
+        "set): the oracle accepts every reading; never generated: NaN values, a source that is the destination / its ancestor / its descendant, non-bool "
+        "strict, duplicate sibling names",
     ]
     rule = ("pairs (dest, src) of Section trees of depth <= 3: src derived from dest with controlled "
             "overlap (same/other names, types, dtypes, units, text attributes equal up to "
             "case/whitespace or different, shared/new/convertible/unconvertible values) x strict "
             "on/off; a directed stream plants exactly one conflict at every matched position of a "
             "conflict-free pair; Property.merge and Section.merge_check are driven directly too; "
-            "dtypes.get/infer_dtype/== on the full value pool x dtypes. Non-trivial = the two trees "
+            "dtypes.get/infer_dtype/== on the full value pool x dtypes. Histories: trees that were "
+            "used before - every 'look' operation (accepted / refused merge, merge_check, "
+            "Property.merge, contains, list lookups, merged-equivalent, iteration, link resolution) x "
+            "every edit (rename, retype, item assignment, remove / append / insert / reorder, direct "
+            "edits of the child lists, attribute / value / dtype / cardinality edits, clones with and "
+            "without ids, moves between trees, unmerge / clean, Document, dict round trip) at any depth "
+            "below the merged Section, then sources derived from the destination before and after the "
+            "edit; plus random histories; every merge / merge_check / Property.merge / link resolution "
+            "of a history is judged on its own snapshots; wider pools there (unnamed objects, "
+            "non-ASCII, exotic blanks, unresolved link / include, 10+ siblings, depth 6, huge ints, "
+            "infinite and non-half-integer floats). Non-trivial = the two trees "
             "share at least one child; distinct = distinct canonical JSON.")
 
     # -- generation ----------------------------------------------------------
@@ -584,11 +1354,24 @@ class C13(fw.Check):
             cases.append({"stream": "norm", "s": t})
             for _ in range(3):
                 cases.append({"stream": "norm", "s": variant(rng, t) if t else t})
+        # histories (own generator state, drawn last: the streams above stay what they were).
+        # Directed: every "look" operation x every edit operation; then random histories.
+        rng2 = random.Random(rng.getrandbits(64))
+        # (a history carries a snapshot pair per judged call: ~0.3 MB per case in the parent process,
+        # hence the moderate numbers in the thorough tier)
+        for _ in range(2 if tier == "quick" else 8):
+            for lk in L_KINDS:
+                for ek in E_KINDS:
+                    cases.append(gen_history(rng2, lk, ek))
+        for _ in range(700 if tier == "quick" else 3000):
+            cases.append(gen_history(rng2))
         return cases
 
     # -- implementation ------------------------------------------------------
     def impl(self, case):
         st = case["stream"]
+        if st == "hist":
+            return run_history(case)
         if st in ("merge", "check"):
             d = build_sec(case["d"])
             s = build_sec(case["s"])
@@ -639,6 +1422,8 @@ class C13(fw.Check):
                 return []
             op = {"merge": "merge", "check": "merge", "pmerge": "pmerge"}[st]
             return [{"op": op, "d": obs["before_d"], "s": obs["before_s"], "strict": case["strict"]}]
+        if st == "hist":
+            return [r for r in (self.step_request(s) for s in obs["steps"]) if r is not None]
         if st == "get":
             return [{"op": "get", "dtype": case["dtype"], "v": case["v"]}]
         if st == "infer":
@@ -649,33 +1434,57 @@ class C13(fw.Check):
             return [{"op": "norm", "s": case["s"]}] if case["s"].isascii() or True else []
         return []
 
+    @staticmethod
+    def step_request(step):
+        """driver request of one judged step of a history (None: outside the modelled universe).
+        A link step is a non-strict merge whose snapshot has the link attribute masked."""
+        if not (modelable_x(step["before_d"]) and modelable_x(step["before_s"])):
+            return None
+        op = "pmerge" if step["kind"] == "pmerge" else "merge"
+        return {"op": op, "d": step["before_d"], "s": step["before_s"], "strict": step["strict"]}
+
+    @staticmethod
+    def compare_step(st, strict, obs, a):
+        """model answer `a` against the observation of one merge / check / pmerge call"""
+        out = []
+        m_out = a["check"] if st == "check" else a["out"]
+        if (m_out == "ok") != (obs["outcome"] == "ok"):
+            out.append("model outcome %s, implementation outcome %s" % (m_out, obs["outcome"]))
+        elif m_out != "ok" and m_out != obs["outcome"]:
+            out.append("model raises %s, implementation raises %s" % (m_out, obs["outcome"]))
+        want = obs["before_d"] if st == "check" else a["d"]
+        if want != obs["after_d"]:
+            out.append("destination after the call differs: model %s implementation %s"
+                       % (fw.canon(want)[:600], fw.canon(obs["after_d"])[:600]))
+        if st == "merge":
+            if a["clash"] != type_clash(obs["before_d"], obs["before_s"]):
+                out.append("type-clash predicate: driver %s, harness mirror %s"
+                           % (a["clash"], not a["clash"]))
+            if a["conflict"] != tree_conflict(obs["before_d"], obs["before_s"]):
+                out.append("conflict predicate: driver (Merge.treeConflict) %s, oracle %s"
+                           % (a["conflict"], not a["conflict"]))
+            if not (a["wf"] and a["typed"]):
+                out.append("API-built trees outside the theorems' side conditions: "
+                           "wfSec(src)=%s typedSec(dest)=%s" % (a["wf"], a["typed"]))
+        return out
+
     def compare(self, case, obs, answers):
         st = case["stream"]
         out = []
+        if st == "hist":
+            todo = [s for s in obs["steps"] if self.step_request(s) is not None]
+            if len(todo) != len(answers):
+                return ["%d modelable steps, %d answers" % (len(todo), len(answers))]
+            for step, a in zip(todo, answers):
+                kind = "merge" if step["kind"] == "link" else step["kind"]
+                out += ["step %d (%s): %s" % (step["k"], step["kind"], d)
+                        for d in self.compare_step(kind, step["strict"], step, a)]
+            return out
         if st in ("merge", "check", "pmerge"):
             if not answers:
                 return ["the implementation produced a state outside the modelled universe: %s"
                         % fw.canon(obs["before_d"])[:300]]
-            a = answers[0]
-            m_out = a["check"] if st == "check" else a["out"]
-            if (m_out == "ok") != (obs["outcome"] == "ok"):
-                out.append("model outcome %s, implementation outcome %s" % (m_out, obs["outcome"]))
-            elif m_out != "ok" and m_out != obs["outcome"]:
-                out.append("model raises %s, implementation raises %s" % (m_out, obs["outcome"]))
-            want = obs["before_d"] if st == "check" else a["d"]
-            if want != obs["after_d"]:
-                out.append("destination after the call differs: model %s implementation %s"
-                           % (fw.canon(want)[:600], fw.canon(obs["after_d"])[:600]))
-            if st == "merge":
-                if a["clash"] != type_clash(obs["before_d"], obs["before_s"]):
-                    out.append("type-clash predicate: driver %s, harness mirror %s"
-                               % (a["clash"], not a["clash"]))
-                if a["conflict"] != tree_conflict(obs["before_d"], obs["before_s"]):
-                    out.append("conflict predicate: driver (Merge.treeConflict) %s, oracle %s"
-                               % (a["conflict"], not a["conflict"]))
-                if not (a["wf"] and a["typed"]):
-                    out.append("API-built trees outside the theorems' side conditions: "
-                               "wfSec(src)=%s typedSec(dest)=%s" % (a["wf"], a["typed"]))
+            out += self.compare_step(st, case["strict"], obs, answers[0])
         elif st in ("get", "infer", "norm"):
             if answers[0] != obs["r"]:
                 out.append("model %r, implementation %r" % (answers[0], obs["r"]))
@@ -687,39 +1496,58 @@ class C13(fw.Check):
         return out
 
     # -- oracle --------------------------------------------------------------
-    def oracle(self, case, obs):
-        if "harness_exception" in obs:
-            return []
-        st = case["stream"]
+    @staticmethod
+    def oracle_step(st, strict, obs, planted=None):
+        """the clauses of the property for one merge / check / pmerge call, over its snapshots"""
         out = []
-        if st not in ("merge", "check", "pmerge"):
-            return out
         D, S, R = obs["before_d"], obs["before_s"], obs["after_d"]
+        # "" as an attribute (reachable through the XML reader only): a conflict is demanded to be
+        # refused only if it is one under both readings of "" (set / unset) - the weaker reading
+        D0, S0 = without_empty(D), without_empty(S)
         raised = obs["outcome"] != "ok"
         if obs["after_s"] != S:
             out.append("the source was changed by the call")
         if st == "check":
             if R != D:
                 out.append("merge_check changed the destination")
-            if case["strict"] and tree_conflict(D, S) and obs["outcome"] != "ValueError":
+            if strict and tree_conflict(D, S) and tree_conflict(D0, S0) and \
+                    obs["outcome"] != "ValueError":
                 out.append("conflict: strict merge_check of conflicting trees gave %s" % obs["outcome"])
             return out
         if raised and R != D:
             out.append("partial: merge raised %s but changed the destination" % obs["outcome"])
         if st == "merge":
-            if case["strict"] and tree_conflict(D, S) and obs["outcome"] != "ValueError":
+            if strict and tree_conflict(D, S) and tree_conflict(D0, S0) and \
+                    obs["outcome"] != "ValueError":
                 out.append("conflict: strict merge of conflicting trees gave %s (planted %s)"
-                           % (obs["outcome"], case.get("planted")))
+                           % (obs["outcome"], planted))
             if not raised:
-                check_merged(D, S, R, case["strict"], "", out)
+                check_merged(D, S, R, strict, "", out)
         else:
-            if case["strict"] and prop_conflict(D, S) and obs["outcome"] != "ValueError":
+            if strict and prop_conflict(D, S) and prop_conflict(D0, S0) and \
+                    obs["outcome"] != "ValueError":
                 out.append("conflict: strict merge of conflicting Properties gave %s" % obs["outcome"])
             if not raised:
-                check_prop_merged(D, S, R, case["strict"], "prop", out)
+                check_prop_merged(D, S, R, strict, "prop", out)
                 if R["name"] != D["name"]:
                     out.append("name of the destination Property changed")
         return out
+
+    def oracle(self, case, obs):
+        if "harness_exception" in obs:
+            return []
+        st = case["stream"]
+        if st == "hist":
+            # every judged call of the history, each on its own before / after snapshots
+            out = []
+            for step in obs["steps"]:
+                kind = "merge" if step["kind"] == "link" else step["kind"]
+                out += ["%s [%s, step %d]" % (f, step["kind"], step["k"])
+                        for f in self.oracle_step(kind, step["strict"], step)]
+            return out
+        if st not in ("merge", "check", "pmerge"):
+            return []
+        return self.oracle_step(st, case["strict"], obs, case.get("planted"))
 
     def finding_key(self, case, obs, failure):
         # known finding: a source sub-Section whose name is used in the destination by a Section
@@ -727,10 +1555,31 @@ class C13(fw.Check):
         if case.get("stream") == "merge" and failure.startswith("partial:") and \
                 obs.get("outcome") == "KeyError" and type_clash(obs["before_d"], obs["before_s"]):
             return KEY_CLASH
+        # the same finding reached inside a history: the judged step itself is such a merge
+        if case.get("stream") == "hist" and failure.startswith("partial:"):
+            m = re.search(r"\[(?:merge|link), step (\d+)\]$", failure)
+            for step in obs.get("steps", []) if m else []:
+                if step["k"] == int(m.group(1)) and step["outcome"] == "KeyError" and \
+                        type_clash(step["before_d"], step["before_s"]):
+                    return KEY_CLASH
         return None
 
     def tag(self, case, obs):
         st = case["stream"]
+        if st == "hist":
+            if "steps" not in obs:
+                return ("hist:broken", False)
+            shared = False
+            for step in obs["steps"]:
+                D, S = step["before_d"], step["before_s"]
+                shared = shared or step["kind"] == "pmerge" or \
+                    any(find_prop(D["props"], p["name"]) for p in S["props"]) or \
+                    any(find_sec(D["secs"], c["name"], c["type"]) for c in S["secs"])
+            raised = sorted(set(s["outcome"] for s in obs["steps"] if s["outcome"] != "ok"))
+            name = "hist:%s:%s" % ("directed" if "shape" in case else "random",
+                                   "+".join(raised) if raised else
+                                   ("ok" if obs["steps"] else "nothing-judged"))
+            return (name, bool(shared))
         if st in ("merge", "check", "pmerge"):
             if "outcome" not in obs:
                 return (st + ":broken", False)
